@@ -144,6 +144,11 @@ def run_growth(chk, tier: str, rng: random.Random) -> None:
     if not r["ok"]:
         raise tlc.MachineryError(f"Swarm.tla violates {r['violated']}")
     chk.add_mc(r, "growth: particle-swarm bookkeeping among interleaved samplers (best = min of own losses, window lands on own batch)")
+    if tier != "quick":
+        r2 = tlc.model_check("Swarm", "MC_Swarm_thorough2.cfg", workers=8, deadlock=False)
+        if not r2["ok"]:
+            raise tlc.MachineryError(f"Swarm.tla violates {r2['violated']}")
+        chk.add_mc(r2, "growth: three particles, losses {0,1,2,+inf}, histories <= 8")
     chk.add_mc(tlc.expect_counterexample("Swarm", "MC_Swarm_mut.cfg", None, workers=4, deadlock=False),
                "non-vacuity: window start recorded only at set-up")
     traces, metas = [], []
